@@ -765,7 +765,7 @@ func genOtlp(r *rand.Rand, c *Case) {
 }
 
 func reserved(i int) bool {
-	return i%400 == 109 || i%400 == 259 || i%400 == 209 || i%400 == 309 || i%200 == 3 || i%400 == 9 || i%1000 == 501 || i%100 == 51 || i%40 == 2 || i%50 == 31
+	return i%400 == 159 || i%400 == 109 || i%400 == 259 || i%400 == 209 || i%400 == 309 || i%200 == 3 || i%400 == 9 || i%1000 == 501 || i%100 == 51 || i%40 == 2 || i%50 == 31
 }
 
 // genHistory draws a HISTORY: 2..5 bodies decoded one after another in this process (same parser objects, and for
@@ -873,6 +873,7 @@ func genHistory(r *rand.Rand, start int, n int) []Case {
 		if mode >= 6 {
 			c.Class += "+mixed-protocols"
 		}
+		setReads(&c)
 		out = append(out, c)
 	}
 	return out
@@ -889,6 +890,9 @@ func gen(r *rand.Rand, i int) Case {
 		c.Cache = "set"
 	}
 	switch {
+	case i%400 == 159:
+		c.Proto = "ddlog"
+		genDDLogBig(r, &c)
 	case i%400 == 109:
 		c.Proto = "loki_json"
 		genLokiLong(r, &c, "entries-first")
@@ -976,5 +980,66 @@ func gen(r *rand.Rand, i int) Case {
 			flag(&c, "cut-"+c.Cut.Enc+"-"+c.Cut.Kind)
 		}
 	}
+	setReads(&c)
 	return c
+}
+
+// jxBufferBytes: the size of the read buffer the JSON decoders give jx (jx.Decode(reader, 64*1024)); a body longer than
+// that is decoded across buffer refills
+const jxBufferBytes = 64 * 1024
+
+// setReads: one body in three reaches the parser through a reader that returns short reads (1..Reads bytes per call, sizes
+// drawn from a PRNG seeded by WSeed), the way an HTTP body arrives in pieces. Derived from WSeed alone, so the stream of
+// generated bodies is the one of earlier rounds. A decoder that keeps a reference into its read buffer across a refill
+// (jx StrBytes / Raw results, bufio.Scanner.Bytes) shows on small bodies this way.
+func setReads(c *Case) {
+	if c.Cut != nil || c.WSeed%3 != 0 || strings.HasPrefix(c.Class, "big-body") { // big-body: whole-buffer reads, the refills fall where the generator put them
+		return
+	}
+	c.Reads = []int{1, 5, 16, 40, 100, 300, 1500, 5000}[(c.WSeed/3)%8]
+}
+
+// genDDLogBig: a Datadog logs body longer than the decoder's read buffer, every entry written with "message" as its FIRST key
+// (the Datadog agent's order). Small entries are placed so that every multiple of the buffer size falls INSIDE one of them,
+// between the end of its message value and its closing brace (filler entries with one long message in between; their lengths
+// are found by rendering the body with the case's own serialisation seed); a last filler longer than the buffer follows, so
+// the buffer is overwritten at least up to where the message stood. What a decoder keeps of an entry while it reads on must
+// not live in the read buffer.
+func genDDLogBig(r *rand.Rand, c *Case) {
+	c.Class = "big-body+message-first"
+	c.KeyOrder = "message-first"
+	k := 2 + r.Intn(4)
+	small := func(i int) DDLog {
+		return DDLog{Tags: []KV{{"env", Str(pick(r, ddVals))}}, Message: Str(fmt.Sprintf("small-%d-marker %s", i, pick(r, []string{"GET /index.html 200", "request served in 4 ms", "level=info msg=x"}))),
+			TsMs: 1700000000000 + int64(r.Intn(1000000)), Service: sp(pick(r, []string{"web", "payments", "auth"})), Hostname: sp("h1")}
+	}
+	filler := func(i int, n int) DDLog {
+		return DDLog{Tags: []KV{}, Message: Str(fmt.Sprintf("filler-%d-", i) + strings.Repeat(string(rune('a'+i)), n)), TsMs: 1700000000000 + int64(r.Intn(1000000))}
+	}
+	for i := 1; i <= k; i++ {
+		c.Body.DDLog = append(c.Body.DDLog, filler(i, jxBufferBytes-4096), small(i))
+		for j := r.Intn(3); j > 0; j-- {
+			c.Body.DDLog = append(c.Body.DDLog, small(100*i+j))
+		}
+	}
+	c.Body.DDLog = append(c.Body.DDLog, filler(k+1, jxBufferBytes+1024+r.Intn(4096)), small(k+1))
+	fi := 0
+	for i := 1; i <= k; i++ {
+		wire := string(ddLogJSON(c, rand.New(rand.NewSource(c.WSeed))))
+		marker := fmt.Sprintf("small-%d-marker", i)
+		at := strings.Index(wire, marker)
+		end := at + strings.Index(wire[at:], "\"") + 1 // just behind the closing quote of the message value
+		delta := i*jxBufferBytes - (1 + r.Intn(20)) - end
+		for !strings.HasPrefix(string(c.Body.DDLog[fi].Message), fmt.Sprintf("filler-%d-", i)) {
+			fi++
+		}
+		m := string(c.Body.DDLog[fi].Message)
+		if delta >= 0 {
+			m += strings.Repeat(m[len(m)-1:], delta)
+		} else {
+			m = m[:len(m)+delta]
+		}
+		c.Body.DDLog[fi].Message = Str(m)
+	}
+	c.doc = nil
 }
